@@ -10,7 +10,7 @@ from ..env import WORK, VERIF
 TICK = 0.05 / 8
 KINDS = ("sphere", "ellipsoid", "cube", "box", "cylinder", "capsule")
 NAMES = ("A", "B", "C")
-MUTANTS = ("tp", "com", "aabbs", "tree", "treerule", "bary", "alias", "details")
+MUTANTS = ("tp", "com", "aabbs", "tree", "treerule", "bary", "alias", "details", "boxcache")
 
 
 def make_body(kind, T, E):
@@ -107,6 +107,11 @@ def session(args):
     rng = random.Random(seed)
     base = np.array([rng.uniform(-3, 3) for _ in range(3)])
     spec = {nm: [rng.choice(KINDS), rand_pose(rng, base), 10 ** rng.uniform(-2, 2)] for nm in NAMES}
+    if rng.random() < 0.25:
+        # parallel placement: all three bodies share one orientation (relative rotations are the identity)
+        R = spec[NAMES[0]][1][:3, :3].copy() if rng.random() < 0.6 else np.eye(3)
+        for nm in NAMES:
+            spec[nm][1][:3, :3] = R
     if rng.random() < 0.4:
         # one body far away: no contact with it, but bodies re-expressed in its frame get large coordinates
         d = np.array([rng.gauss(0, 1) for _ in range(3)])
@@ -117,7 +122,8 @@ def session(args):
     bodies = {nm: make_body(*spec[nm]) for nm in NAMES}
     user_arr = {nm: bodies[nm].body2origin_ for nm in NAMES}        # the pose arrays the "user" owns
     ver = {nm: 0 for nm in NAMES}
-    poses = {(nm, 0): np.array(spec[nm][1]) for nm in NAMES}         # pose label -> matrix
+    poses = {(nm, 0): np.array(spec[nm][1]) for nm in NAMES}         # pose label -> own-frame pose of the body (where a fresh twin is built)
+    frame_pose = {(nm, 0): np.array(spec[nm][1]) for nm in NAMES}    # pose label -> matrix held in body2origin_ by bodies in that frame
     size = 1.3
     ev = [{"ev": "new", "id": sid}]
     aabb_obs = []
@@ -131,11 +137,8 @@ def session(args):
         bad = []
         for nm in NAMES:
             b = bodies[nm]
-            lab = ["unknown", 0]
-            for (pn, pv), P in poses.items():
-                if np.allclose(b.body2origin_, P, atol=1e-12):
-                    lab = [pn, pv]
-            e["ofr"][nm] = lab
+            labs = [[pn, pv] for (pn, pv), P in frame_pose.items() if np.allclose(b.body2origin_, P, atol=1e-12)]
+            e["ofr"][nm] = labs or [["unknown", 0]]          # every label with that pose value (a moved-back body has two)
             own = [o for o in NAMES if np.shares_memory(b.body2origin_, user_arr[o])]
             e["arr"][nm] = own[0] if own else "private"
             e["world"][nm] = ticks(float(np.max(np.abs(world_vertices(b) - world_vertices(fresh(nm))))), 1e-9 * 10 / 8)
@@ -144,7 +147,7 @@ def session(args):
     def blank(op, eid, h):
         return {"ev": op, "id": eid, "b1": h["b1"], "b2": h["b2"], "bp": h["bp"], "det": bool(h["det"]), "how": h["how"], "exc": "none",
                 "ar": 0, "swap": 0, "swapT": 0, "rigid": 0, "repeat": 0, "repeatT": 0, "fresh": 0, "freshT": 0, "flagsSame": True, "pairsSame": True,
-                "ofr": {n: ["unknown", 0] for n in NAMES}, "arr": {n: "?" for n in NAMES}, "world": {n: 0 for n in NAMES}, "staleCaches": []}
+                "ofr": {n: [["unknown", 0]] for n in NAMES}, "back": bool(h.get("back", False)), "arr": {n: "?" for n in NAMES}, "world": {n: 0 for n in NAMES}, "staleCaches": []}
 
     def pairs_of(cs):
         return set(pair_areas(cs))
@@ -218,9 +221,15 @@ def session(args):
             elif op == "move":
                 last_cf[0] = None
                 b = bodies[b1n]
-                new = rand_pose(rng, poses[(b1n, ver[b1n])][:3, 3], spread=0.12, general=1.0)
+                F = np.array(b.body2origin_, dtype=float)          # the frame the vertices are expressed in right now
+                if h.get("back", False):
+                    new = np.array(frame_pose[(b1n, 0)])           # moved back: the matrix the body had at the start of the session
+                else:
+                    new = rand_pose(rng, F[:3, 3], spread=0.12, general=1.0)
+                own = new @ np.linalg.inv(F) @ poses[(b1n, ver[b1n])]    # the vertices keep their numbers: the new pose defines the placement
                 ver[b1n] += 1
-                poses[(b1n, ver[b1n])] = new
+                poses[(b1n, ver[b1n])] = own
+                frame_pose[(b1n, ver[b1n])] = new
                 if h["how"] == "inplace":
                     b.body2origin_[...] = new                      # the user mutates the body's pose array in place
                 else:
